@@ -286,9 +286,10 @@ class Agent:
             if usm["engine_id"] == b"":
                 return self.report(req, REPORT_UNKNOWN_ENGINE, flags=0, mac="empty", encrypt=False,
                                    request_id=req.request_id)
-            if req.pdu["tag"] == B.PDU_GET and not req.pdu["varbinds"] and (req.m["flags"] & 4):
-                # time synchronisation probe: authenticated report, never encrypted
-                return self.report(req, REPORT_NOT_IN_TIME, flags=req.m["flags"] & 1, encrypt=False)
+            if (req.m["flags"] & 1) and (usm["boots"], usm["time"]) != (self.boots, self.time):
+                # authenticated message outside the time window (the client's time
+                # synchronisation probe): authenticated report, never encrypted
+                return self.report(req, REPORT_NOT_IN_TIME, flags=1, encrypt=False)
         return fn(req)
 
 
